@@ -27,13 +27,17 @@ PREFIX = "__function_compiler_tmp_"
 
 
 class Proc:
-    def __init__(self, idx, tag, nfun, tmp, binp):
+    def __init__(self, idx, tag, nfun, tmp, binp, fakepid=None):
         self.idx, self.tag, self.nfun = idx, tag, nfun
+        self.fakepid = fakepid
         self.ready = os.path.join(tmp, ".ready%d" % idx)
         self.go = os.path.join(tmp, ".go%d" % idx)
         os.mkfifo(self.ready)
         os.mkfifo(self.go)
         env = dict(os.environ, TMP=tmp, VERIF_SCHED_READY=self.ready, VERIF_SCHED_GO=self.go)
+        env.pop("VERIF_FAKE_PID", None)
+        if fakepid is not None:
+            env["VERIF_FAKE_PID"] = str(fakepid)
         self.p = subprocess.Popen([binp, str(tag), str(nfun)], env=env, stdout=subprocess.PIPE, stderr=subprocess.DEVNULL, text=True)
         self.rf = open(self.ready, "r")
         self.gf = open(self.go, "w")
@@ -98,14 +102,14 @@ def c_tag(path):
     return int(m.group(1)) if m else None
 
 
-def run_real(binp, cfg, sched, stale=()):
+def run_real(binp, cfg, sched, stale=(), fakepids=None):
     """cfg: [(modelpid, nfun)], sched: list of process indices.  Returns the canonical lines of the model protocol."""
     tmp = tempfile.mkdtemp(prefix="c11_", dir=os.path.join(common.WORK))
     procs = []
     try:
         for i, (mp, nfun) in enumerate(cfg):
-            procs.append(Proc(i, mp, nfun, tmp, binp))
-        realpid = {p.p.pid: cfg[p.idx][0] for p in procs}
+            procs.append(Proc(i, mp, nfun, tmp, binp, fakepids[i] if fakepids else None))
+        realpid = {(p.fakepid if p.fakepid is not None else p.p.pid): cfg[p.idx][0] for p in procs}
         # stale files of "dead processes with a recycled pid": planted while every process is still blocked at its first probe
         stale_names = set()
         for (idx, k, ext) in stale:
@@ -121,9 +125,11 @@ def run_real(binp, cfg, sched, stale=()):
             if not fn.startswith(PREFIX):
                 continue
             base, ext = fn[len(PREFIX):].rsplit(".", 1)
-            if "_" in base:
+            if "_" in base and fakepids is None:
                 pp, k = base.split("_")
                 part = str(realpid.get(int(pp), "stale" + pp))
+            elif fakepids is not None:
+                part, k = "-", "".join(ch for ch in base if ch.isdigit()) or "0"
             else:
                 part, k = "-", base
             tag = so_tag(os.path.join(tmp, fn)) if ext == "so" else c_tag(os.path.join(tmp, fn))
@@ -302,9 +308,34 @@ def run(ctx):
                 viol = dict(config=cfg, schedule=s, stale_files=[dict(process=i, counter=k, ext=e) for (i, k, e) in stale], errors=errs, real_processes=real_lines, files=files)
             if len(samples) < 3:
                 samples.append(dict(config=cfg, schedule=s[:30], stale_files=stale, real=str(a)[:300]))
+    # name-collision candidates: the harness makes getpid() return chosen numbers, so that the names of (pid 2, counter 10) and
+    # (pid 21, counter 0), or (pid 1, counter 11) and (pid 11, counter 1), coincide unless process id and counter are kept apart in
+    # the name; the first process is brought to its colliding expression, then the two run in the race-witness patterns
+    coll = []
+    if okh:
+        tails = [[0, 1] * 12, [1, 0] * 12, [0, 0, 1, 1] * 6, [0, 1, 1, 0] * 6]
+        for (cfg, fp, pre) in [([(10, 11), (20, 1)], [2, 21], [0] * 70), ([(10, 12), (20, 2)], [1, 11], [0] * 77 + [1] * 7),
+                               ([(10, 2), (20, 12)], [11, 1], [1] * 77 + [0] * 7)]:
+            for t in (tails if ctx.thorough else tails[:2]):
+                coll.append((cfg, fp, pre + t + [0] * 30 + [1] * 30))
+
+        def cone(c):
+            cfg, fp, sch = c
+            rl, fl = run_real(binp, cfg, sch, (), fakepids=fp)
+            return c, rl, fl
+        with ThreadPoolExecutor(max_workers=6) as ex:
+            cres = list(ex.map(cone, coll))
+        for (cfg, fp, sch), rl, fl in cres:
+            complete = all(st != "running" for (_, st, _, _) in rl)
+            errs = oracle(cfg, rl, fl, complete)
+            hist["fake_pid_runs"] = hist.get("fake_pid_runs", 0) + 1
+            hist["fake_pid_complete"] = hist.get("fake_pid_complete", 0) + (1 if complete else 0)
+            if errs and viol is None:
+                viol = dict(config=cfg, process_ids_seen_by_the_code=fp, schedule=sch, stale_files=[], errors=errs, real_processes=rl, files=fl,
+                            note="the harness overrides getpid() (env VERIF_FAKE_PID) so that two live processes have ids whose digits, followed by the counter, coincide")
     ctx.oblige("correspondence funccompile: Lean model = real processes on %d forced interleavings" % len(cases), okh and not diffs,
                "" if not diffs else "first difference: %s" % str(diffs[0])[:600])
-    ctx.oblige("oracle on the real runs: own code, no failure, no file left (%d runs)" % len(cases), viol is None, str(viol)[:300])
+    ctx.oblige("oracle on the real runs: own code, no failure, no file left (%d runs + %d runs with chosen process ids whose names would collide without a separator)" % (len(cases), len(coll)), viol is None, str(viol)[:300])
     ctx.coverage.update(dict(evaluations=len(cases), distinct_nontrivial=len({(str(c), tuple(s), st) for c, s, st in cases if len(set(s)) > 1}),
                              rule="forced interleavings of 2-3 real processes (1-2 expressions each) at the scheduling points probe/openC/writeC/gcc/rmC/dlopen/rmSo: the Lean race-witness schedules, lock-step patterns and random interleavings (half with a lock-step prefix, 30% truncated); non-trivial = at least two processes are scheduled",
                              samples=samples, histogram=hist, traces_validated_against_impl=len(cases)))
